@@ -353,6 +353,28 @@ func run(repo string, it item) (string, error) {
 			lt = "String"
 		}
 		return fmt.Sprintf("def %s : List (List %s) :=\n  [%s]\n", it.Name, lt, strings.Join(clauses, ",\n   ")), nil
+	case "conds":
+		// the Index-th switch statement: printed case expressions (for tagless / non-constant switches)
+		var sw []*ast.SwitchStmt
+		ast.Inspect(body, func(n ast.Node) bool {
+			if s, ok := n.(*ast.SwitchStmt); ok {
+				sw = append(sw, s)
+			}
+			return true
+		})
+		if it.Index >= len(sw) {
+			return "", fmt.Errorf("%s: switch #%d not found in %s", it.Name, it.Index, it.Func)
+		}
+		var clauses []string
+		for _, st := range sw[it.Index].Body.List {
+			cc := st.(*ast.CaseClause)
+			var vals []string
+			for _, e := range cc.List {
+				vals = append(vals, leanString(exprString(e)))
+			}
+			clauses = append(clauses, "["+strings.Join(vals, ", ")+"]")
+		}
+		return fmt.Sprintf("def %s : List (List String) :=\n  [%s]\n", it.Name, strings.Join(clauses, ",\n   ")), nil
 	case "strings":
 		var vals []string
 		ast.Inspect(body, func(n ast.Node) bool {
